@@ -1028,7 +1028,20 @@ def generic_cases():
               kw=dict(vacuum=True),
               calls=[dict(n=5, repeat=False, est="empty", vars_kw="list"),
                      dict(n=0, repeat=False, vars_kw="omit")])
-    return [g1, g2, g3, g4]
+    # a custom estimate applied in the first call, new scalars added without
+    # estimates, then an estimates-only call (no vars at all / vars omitted):
+    # the custom estimate is present for some scalars and missing for others
+    g5 = dict(g1, vars=["gammadet", ["c_lin"], "Ktrace", "s_RicciS", "A2",
+                        "betamag"],
+              ests=[["center"], "max", ["rms"], "median"],
+              calls=[dict(n=3, repeat=False, est=2, vars_kw="list"),
+                     dict(n=3, repeat=False, est="omit", vars_kw="list"),
+                     dict(n=0, repeat=False, vars_kw="list")])
+    g6 = dict(g5, container="array", tkeys=["t"],
+              calls=[dict(n=2, repeat=False, est=1, vars_kw="list"),
+                     dict(n=4, repeat=False, est="empty", vars_kw="list"),
+                     dict(n=0, repeat=False, vars_kw="omit")])
+    return [g1, g2, g3, g4, g5, g6]
 
 
 def generic_wide():
